@@ -19,7 +19,9 @@ def replay(w, obs, rng, coin, h0, variant):
     placement = [(p['file'], p['slot']) for p in obs['lay']]
     used = set(placement)
     decoys = [(f, s) for f in {p[0] for p in placement} for s in (1, 2, 3, 4) if (f, s) not in used] if obs['decoy'] else []
-    d = layout.materialise(w.sub('dd'), blocks, placement, rng, coin=coin, h0=h0, decoys=decoys, extra_file=obs['extra'])
+    # (a third of the directories is obfuscated here explicitly: random keys, keys starting with four zero bytes)
+    xk = [None, None, rng.randbytes(8), bytes(4) + rng.randbytes(4), rng.randbytes(5), None][(n + variant + len(decoys)) % 6]
+    d = layout.materialise(w.sub('dd'), blocks, placement, rng, coin=coin, h0=h0, decoys=decoys, extra_file=obs['extra'], xor_key=xk)
     if variant == 1 and rng.random() < 0.35:
         # blk files kept on other storage and linked into the directory (absolute symbolic links)
         cold = d.path + '-cold-storage'
